@@ -221,8 +221,10 @@ func (c *Authority) VerifyAnyQC(proposal *hotstuff.ProposeMsg) error {
 		if err != nil {
 			return err
 		}
-		// for simplicity, we require that the highQC found in the AggregateQC equals the block's QC.
-		if !qc.Equals(highQC) {
+		// for simplicity, we require that the block's QC certifies the same block as the highQC found in the
+		// AggregateQC. Two collectors can assemble different (equally valid) certificates for one block, and
+		// which of them is found first is arbitrary; the block's own QC is verified below.
+		if qc.View() != highQC.View() || qc.BlockHash() != highQC.BlockHash() {
 			return fmt.Errorf("block QC does not match the highQC of the block's aggregate QC")
 		}
 	}
